@@ -249,8 +249,44 @@ class Engine:
 
     def assume_valid_ref(self, st, v):
         if is_refkind(v.kind) and v.t is not None and not z3.is_int_value(v.t):
-            return st.assume(z3.And(v.t >= 1, v.t <= st.alloc))
+            c = z3.And(v.t >= 1, v.t <= st.alloc)
+            tc = self.type_constraint(v)
+            if tc is not None:
+                c = z3.And(c, tc)
+            return st.assume(c)
         return st
+
+    # dynamic class of an object: cls_of(ref) ranges over the declared subclasses of the static class
+    def class_id(self, name):
+        ids = self.__dict__.setdefault("_class_ids", {})
+        if name not in ids:
+            ids[name] = len(ids) + 1
+        return ids[name]
+
+    def subclasses(self, cname):
+        cache = self.__dict__.setdefault("_subcls", {})
+        if cname not in cache:
+            out = [cname]
+            sh0 = self.R.shapes.get(cname)
+            for d in sorted(self.R.shapes) if not (sh0 is not None and sh0.final) else []:
+                if d != cname and (self._shape_sub(d, cname) or self.P.is_subclass(d, cname)):
+                    out.append(d)
+            cache[cname] = out
+        return cache[cname]
+
+    def cls_of(self, t):
+        return self.uf_decl("cls_of", z3.IntSort(), z3.IntSort())(t)
+
+    def type_constraint(self, v):
+        if v.kind.tag != "ref" or v.kind[1] == "object" or v.t is None:
+            return None
+        subs = self.subclasses(v.kind[1])
+        return z3.Or([self.cls_of(v.t) == self.class_id(d) for d in subs])
+
+    def new_object(self, st, cname):
+        st, r = self.new_ref(st)
+        st = st.assume(self.cls_of(r) == self.class_id(cname))
+        return st, V(Kind("ref", cname), r)
 
     # lists ---------------------------------------------------------------
     def lkey(self, k):
